@@ -542,6 +542,7 @@ static void sched_run(const std::vector<std::string> &plan, Child &c) {
     c.violation("fd-leak", "descriptor-open-after-run", strf("%d simulated descriptor(s) still open after all tasks finished although no mapping made from them is alive (%s)", fs::open_unmapped_fds(), fs::open_fd_desc().c_str()));
   c.count("sched.tasks", ntasks);
   c.state(s.interleaving_hash);
+  if (ntasks >= 2 && s.switches > 0) c.res.dkey = s.interleaving_hash ? s.interleaving_hash : 1;   // evidence: distinct interleavings
   for (auto &e : rt::realised()) c.res.sched.push_back(strf("sw %d %llu %d", e.task, (unsigned long long)e.yield, e.next));
   c.note(strf("tasks=%d strategy=%s switches=%llu deviations=%zu interleaving=%016llx", ntasks, st.c_str(), (unsigned long long)s.switches,
               rt::realised().size(), (unsigned long long)s.interleaving_hash));
